@@ -33,8 +33,33 @@ func ruleConfigKeying(w *World, r *Run, rule string) {
 		return
 	}
 	nIns := 0
+	resT := w.fn(fnAsLogMap).Signature.Results().At(0).Type()
+	// tests on a look-up keyed by a log ID, and what the path did under each polarity (for C12.d, see below)
+	type arm struct{ refused, inserted bool }
+	arms := map[string]*arm{}
+	armKey := func(t *Term, pos bool) string { return fmt.Sprintf("%s|%v", t.key, pos) }
+	for _, s := range sums {
+		refused := len(s.Rets) == 2 && neverNil(s.Rets[1]) && s.Rets[0].Kind == "nil"
+		for _, f := range s.Facts {
+			if anySub(f.T, func(t *Term) bool { return t.Kind == "lookup" && t.Args[1].Kind == "call" && t.Args[1].Name == cLogID }) {
+				a := arms[armKey(f.T, f.Pos)]
+				if a == nil {
+					a = &arm{}
+					arms[armKey(f.T, f.Pos)] = a
+				}
+				if refused {
+					a.refused = true
+				} else {
+					a.inserted = true
+				}
+			}
+		}
+	}
 	for _, s := range sums {
 		for _, mu := range eventsOfKind(s, "mapupdate") {
+			if mu.Recv == nil || mu.Recv.Typ == nil || !types.Identical(mu.Recv.Typ, resT) {
+				continue // an auxiliary index, not the map handed to the witness
+			}
 			nIns++
 			key := fnAsLogMap + " | entry = ID(E.Origin) -> {verifier of E.PublicKey, E.Origin} for one element E"
 			k, v := mu.Args[0], mu.Args[1]
@@ -67,11 +92,23 @@ func ruleConfigKeying(w *World, r *Run, rule string) {
 			// C12.d: insertion only on the not-found arm of a lookup with the same key
 			okT := mk("lookup", "ok", 0, nil, mu.Recv, k)
 			kk, found, sq := boolFact(s, okT)
-			r.Check(kk && !found && sq < mu.Seq, "C12.d", fnAsLogMap+" | insertion only when the ID is not taken yet", w.pos(mu.Pos), "an entry is inserted without having established that no other configured log has this ID (two logs sharing an ID would silently overwrite each other); path: "+pathString(e, s))
+			unique := kk && !found && sq < mu.Seq
+			if !unique {
+				// or: the insertion is dominated by a test on a look-up of this very ID in an index of the configured IDs,
+				// and the other outcome of that same test refuses the configuration
+				for _, f := range s.Facts {
+					if f.Seq < mu.Seq && anySub(f.T, func(t *Term) bool { return t.Kind == "lookup" && t.Args[1] == k }) {
+						if o := arms[armKey(f.T, !f.Pos)]; o != nil && o.refused && !o.inserted {
+							unique = true
+						}
+					}
+				}
+			}
+			r.Check(unique, "C12.d", fnAsLogMap+" | insertion only when the ID is not taken yet", w.pos(mu.Pos), "an entry is inserted without having established that no other configured log has this ID (two logs sharing an ID would silently overwrite each other); path: "+pathString(e, s))
 		}
 		// the colliding arm returns an error
 		for _, f := range s.Facts {
-			if f.T.Kind == "lookup" && f.T.Name == "ok" && f.Pos && f.T.Args[1].Kind == "call" && f.T.Args[1].Name == cLogID {
+			if f.T.Kind == "lookup" && f.T.Name == "ok" && f.Pos && f.T.Args[1].Kind == "call" && f.T.Args[1].Name == cLogID && f.T.Args[0].Typ != nil && types.Identical(f.T.Args[0].Typ, resT) {
 				r.Check(len(s.Rets) == 2 && neverNil(s.Rets[1]) && s.Rets[0].Kind == "nil", "C12.d", fnAsLogMap+" | colliding IDs are refused", w.pos(s.RetPos), "a colliding log ID does not make AsLogMap fail")
 			}
 		}
